@@ -381,8 +381,9 @@ func checkC08(c *Ctx) {
 	c.rule = "cases = request programs (admin and data) run against a real cbtemulator -dir process built from the working tree; the process is killed (SIGKILL) at request boundaries and, armed through VERIF_CRASH_AT, at every instrumented point inside metadata persistence / table create / table clear, then restarted on the same directory (repeatedly within one program); after every restart ListTables/GetTable/ReadRows of everything is recorded and TLC (BtTrace, Crash event) requires the recovered state to be the acknowledged state with the in-flight request wholly present or wholly absent, and the restart itself to succeed; the design (file-system steps, crash at any step, recovery) is model-checked as BtDisk; distinct = distinct (program, kill plan); non-trivial = at least one kill"
 	r := rand.New(rand.NewSource(c.Seed))
 	// M: the persistence design: intended configuration holds; the two deviations the code has are shown to violate it
+	atomicDrop := "TRUE"
 	mk := func(del, metaLast string, invs []string) cfg {
-		return cfg{Spec: "Spec", Constants: map[string]string{"Tables": "{1, 2}", "Keys": "{1, 2}", "MaxReqs": "5", "MaxCrashes": "2", "DeleteOnDisk": del, "MetaLast": metaLast}, Invariants: invs}
+		return cfg{Spec: "Spec", Constants: map[string]string{"Tables": "{1, 2}", "Keys": "{1, 2}", "MaxReqs": "5", "MaxCrashes": "2", "DeleteOnDisk": del, "MetaLast": metaLast, "AtomicFamilyDrop": atomicDrop}, Invariants: invs}
 	}
 	c.runModel("MC_BtDisk", mk("TRUE", "TRUE", []string{"RecoveredOK", "Consistent"}), 8, 20*time.Minute, false)
 	for name, cf := range map[string]cfg{"model_delete_only_in_memory_violates": mk("FALSE", "TRUE", []string{"RecoveredOK", "Consistent"}), "model_meta_before_clear_violates": mk("TRUE", "FALSE", []string{"RecoveredOK", "Consistent"})} {
@@ -390,6 +391,12 @@ func checkC08(c *Ctx) {
 			c.Extra(name, res.InvViolated)
 		}
 	}
+	// the known finding, in the model: purge first, schema file afterwards is not atomic under a kill
+	atomicDrop = "FALSE"
+	if res, err := tlc.Run(tlc.Options{Module: "MC_BtDisk", Cfg: mk("TRUE", "TRUE", []string{"RecoveredOK", "Consistent"}).Text(), Workers: 4, Timeout: 10 * time.Minute}); err == nil {
+		c.Extra("model_family_drop_purge_before_schema_violates", res.InvViolated)
+	}
+	atomicDrop = "TRUE"
 	n := 120
 	if !c.Quick() {
 		n = 1000
